@@ -32,6 +32,7 @@ class RowWalk(Client):
         self.coeff_names, self.lower_name = coeff_names, lower_name
         self.exits = []
         self.unknown_conds = []
+        self.expl_name = 'expl'
 
     # -- evaluation helpers
     def truth(self, c):
@@ -117,7 +118,7 @@ class RowWalk(Client):
 
     def on_call(self, n, s):
         env, pushes = s
-        if mname(n) in ('push_back', 'emplace_back', 'push') and (recv_path(n) or '') == 'expl':
+        if mname(n) in ('push_back', 'emplace_back', 'push') and (recv_path(n) or '') == self.expl_name:
             args = n.get('a', [])
             if len(args) == 1:
                 el = see_through(args[0])
@@ -145,7 +146,12 @@ def run(src, tier, seed):
     lower_name = next((p['n'] for p in gcb['params'] if p['t'] == 'bool'), None)
     if not lower_name:
         raise AnalysisBroken('getConflictingBounds: Boolean direction parameter not found')
-    loops = [n for n in walk(gcb['body']) if n.get('k') == 'loop' and n.get('kind') == 'range']
+    # the explanation under construction: the local that the function returns
+    rets = [path_of(n.get('e')) for n in walk(gcb['body']) if n.get('k') == 'ret' and n.get('e') is not None]
+    expl_name = next((x for x in rets if x), None)
+    if not expl_name:
+        raise AnalysisBroken('getConflictingBounds: the returned explanation variable was not found')
+    loops = [n for n in walk(gcb['body']) if n.get('k') == 'loop' and n.get('kind') in ('range', 'for')]
     if len(loops) != 1:
         raise AnalysisBroken('getConflictingBounds: expected one range loop over the row, found %d' % len(loops))
     lp = loops[0]
@@ -162,6 +168,7 @@ def run(src, tier, seed):
     for neg in (False, True):
         for lower in (False, True):
             c = RowWalk(neg, lower, coeff_names, lower_name)
+            c.expl_name = expl_name
             # one iteration of the loop body (do { body } while (false)): `continue` / `break` leave the iteration
             pseudo = {'body': {'k': 'loop', 'kind': 'do', 'cond': {'k': 'lit', 'v': False, 't': 'bool'}, 'body': lp['body'], 'ln': lp.get('ln')},
                       'lambdas': gcb.get('lambdas', [])}
@@ -197,6 +204,7 @@ def run(src, tier, seed):
     pre = [s for s in (gcb['body']['c'] if gcb['body'].get('k') == 'seq' else []) if isinstance(s, dict)]
     for lower in (False, True):
         c = RowWalk(False, lower, coeff_names, lower_name)
+        c.expl_name = expl_name
         env = frozenset()
         pushes = ()
         st = (env, pushes)
